@@ -186,6 +186,14 @@ class StubCtx:
 
     def query_message_sizes(self) -> MessageSizes:
         self.calls.append(("sizes",))
+        if not self._complete and self.cfg.get("sig_early") is not None:
+            # before the context is established a provider either refuses the query (pyspnego's NTLM) or reports the size of the
+            # mechanism it has in mind so far, which need not be the one that is finally negotiated
+            if self.cfg["sig_early"] == "raise":
+                import spnego.exceptions as _sx
+
+                raise _sx.NoContextError(context_msg="simulated: no security context established yet")
+            return MessageSizes(header=int(self.cfg["sig_early"]))
         return MessageSizes(header=self.sig)
 
     def wrap_iov(self, iov, encrypt: bool = True, qop=None) -> _IovResult:
